@@ -859,8 +859,8 @@ func strSub(s StringV, lo, hi *Term) StringV {
 	n := BinBV("bvsub", hi, lo)
 	if lo.konst {
 		l := int(lo.val)
-		if l > len(s.b) {
-			l = len(s.b)
+		if l < 0 || l > len(s.b) {
+			l = len(s.b) // garbage offset on an infeasible path
 		}
 		b := s.b[l:]
 		if m, ok := maxConst(n); ok && m < uint64(len(b)) {
